@@ -14,6 +14,7 @@ package cache
 // reflection-driven).
 
 import (
+	"strings"
 	"io/fs"
 	"os"
 	"syscall"
@@ -275,8 +276,12 @@ func VerifC10SaveAtomic() {
 		} else {
 			verifFSPutDir(tmp, 0o700)
 		}
-	} else if verifChoice("staleTmp", 2) == 1 {
+	} else if st := verifChoice("staleTmp", 3); st == 1 {
+		// left by an interrupted save, shorter than the next snapshot
 		verifFSPutFile(tmp, []byte(`{"INTERRUPTED`), 0o644)
+	} else if st == 2 {
+		// left by an interrupted save of a larger cache: longer than the next snapshot
+		verifFSPutFile(tmp, []byte(strings.Repeat("yyyyyyyy", 2048)), 0o644)
 	}
 
 	// what a successful save must leave on disk
